@@ -171,3 +171,233 @@ func c12TraceNotCaptured(w *World, r *Report) {
 		})
 	}
 }
+
+// R-C12-7: the debugger's run loop reports the outcome the plain run loop
+// reports. runFrom may answer "clean completion" (a nil error) only where the
+// error of the last Resume is nil or is the ErrStop signal; an unrecovered
+// panic() stops the context *and* returns an error, and that error is the
+// program's outcome (message on stderr, exit status 1).
+func c12DebuggerKeepsOutcome(w *World, r *Report) {
+	r.Rule("R-C12-7", "debugger.runFrom returns a constant nil error only in a block dominated by the true edge of the ErrStop test or by an edge on which the error is nil (a stopped context is not by itself a clean completion)", 1)
+
+	dp := w.pkg("internal/language/debugger")
+	if dp == nil {
+		return
+	}
+
+	fn := w.ssaFunc(dp, "runFrom")
+	if fn == nil {
+		r.Anchor("R-C12-7", "debugger.runFrom")
+
+		return
+	}
+
+	isStopTest := func(v ssa.Value) bool {
+		c, ok := v.(*ssa.Call)
+		if !ok || !strings.HasSuffix(callID(c.Common()), "errors.Equals") || len(c.Call.Args) != 2 {
+			return false
+		}
+
+		for _, a := range c.Call.Args {
+			if derivesFrom(a, func(s ssa.Value) bool {
+				g, isG := s.(*ssa.Global)
+
+				return isG && g.Name() == "ErrStop"
+			}, nil) {
+				return true
+			}
+		}
+
+		return false
+	}
+
+	nStop := 0
+
+	// the error in force: what the ErrStop test looks at
+	current := map[ssa.Value]bool{}
+
+	allInstrs(fn, func(in ssa.Instruction) {
+		if v, ok := in.(ssa.Value); ok && isStopTest(v) {
+			nStop++
+
+			for _, a := range v.(*ssa.Call).Call.Args {
+				if !derivesFrom(a, func(s ssa.Value) bool {
+					g, isG := s.(*ssa.Global)
+
+					return isG && g.Name() == "ErrStop"
+				}, nil) {
+					current[a] = true
+				}
+			}
+		}
+	})
+
+	key := "debugger.runFrom|nil only for ErrStop or no error"
+
+	if nStop == 0 {
+		r.Anchor("R-C12-7", "the ErrStop test in debugger.runFrom")
+
+		return
+	}
+
+	bad := ""
+
+	for _, ret := range returnsOf(fn) {
+		if len(ret.Results) == 0 || !isNilConst(retResult(ret, 0)) {
+			continue
+		}
+
+		justified := false
+
+		for _, f := range dominatingFacts(ret.Block()) {
+			if (f.Kind == "true" && isStopTest(f.V)) || (f.Kind == "nil" && current[f.V]) {
+				justified = true
+			}
+		}
+
+		if !justified {
+			bad = w.pos(ret.Pos())
+		}
+	}
+
+	if bad != "" {
+		r.Violate("R-C12-7", key, bad, "the debugger's run loop answers a clean completion although the last Resume returned an error other than ErrStop: a program ended by an unrecovered panic() prints no 'Error: unhandled panic' and exits with status 0 under --debug, and with status 1 without it")
+	} else {
+		r.Discharge("R-C12-7", key, w.pos(fn.Pos()), "every constant-nil return lies behind the ErrStop test or a nil error")
+	}
+}
+
+// R-C12-8: output that only a diagnostics mode produces never goes into a
+// program-level capture. A write to Context.output that happens only when
+// tracing is on (the cosmetic newline print adds so that the next trace line
+// starts on a fresh line) must also be conditional on "the program is not
+// capturing its output": the capture buffer becomes a string of the program.
+func c12DiagnosticOutputNotCaptured(w *World, r *Report) {
+	r.Rule("R-C12-8", "a write to Context.output that lies behind a tracing test (Context.Tracing(), ui.IsActive(TraceLogger)) also lies behind 'len(Context.outputStack) == 0', or goes through the capture-bypassing writer: the extra text must not become part of a string the program captures", 1)
+
+	bp := w.pkg("internal/language/bytecode")
+	if bp == nil {
+		return
+	}
+
+	isTracingTest := func(v ssa.Value) bool {
+		c, ok := v.(*ssa.Call)
+		if !ok {
+			return false
+		}
+
+		id := callID(c.Common())
+		if id == "internal/language/bytecode.Context.Tracing" {
+			return true
+		}
+
+		if id == "internal/cli/ui.IsActive" && len(c.Call.Args) == 1 {
+			if k, isC := constInt(c.Call.Args[0]); isC {
+				if tl := lookupConstIntAny(w, "internal/cli/ui", "TraceLogger"); tl != nil && *tl == k {
+					return true
+				}
+			}
+		}
+
+		return false
+	}
+
+	isOutputLoad := func(v ssa.Value) bool {
+		u, ok := v.(*ssa.UnOp)
+		if !ok || u.Op != token.MUL {
+			return false
+		}
+
+		fa, ok := u.X.(*ssa.FieldAddr)
+
+		return ok && fieldName(fa.X.Type(), fa.Field) == "output"
+	}
+
+	noCapture := func(f Fact) bool {
+		if f.Kind != "cmp" {
+			return false
+		}
+
+		isLen := func(v ssa.Value) bool {
+			c, ok := v.(*ssa.Call)
+			if !ok {
+				return false
+			}
+
+			b, ok := c.Call.Value.(*ssa.Builtin)
+
+			return ok && b.Name() == "len" && len(c.Call.Args) == 1 && isFieldNamed(c.Call.Args[0], "outputStack")
+		}
+
+		zero := func(v ssa.Value) bool { k, ok := constInt(v); return ok && k == 0 }
+
+		return (f.Op == token.EQL || f.Op == token.LEQ) && ((isLen(f.X) && zero(f.Y)) || (isLen(f.Y) && zero(f.X)))
+	}
+
+	n := 0
+
+	for _, fn := range w.srcFuncs(bp) {
+		seen := map[string]int{}
+
+		allInstrs(fn, func(in ssa.Instruction) {
+			ci, ok := in.(ssa.CallInstruction)
+			if !ok {
+				return
+			}
+
+			cc := ci.Common()
+
+			var writer ssa.Value
+
+			switch {
+			case cc.IsInvoke() && cc.Method.Name() == "Write":
+				writer = cc.Value
+			case strings.HasPrefix(callID(cc), "fmt.Fprint") && len(cc.Args) > 0:
+				writer = cc.Args[0]
+			default:
+				return
+			}
+
+			writer = stripValue(writer)
+			if !isOutputLoad(writer) && !derivesFrom(writer, isOutputLoad, nil) {
+				return
+			}
+
+			facts := dominatingFacts(in.Block())
+			traced, guarded := false, false
+
+			for _, f := range facts {
+				if f.Kind == "true" && isTracingTest(f.V) {
+					traced = true
+				}
+
+				if noCapture(f) {
+					guarded = true
+				}
+			}
+
+			if !traced {
+				return
+			}
+
+			n++
+
+			key := fnKey(fn) + "|trace-only write to the output"
+			seen[key]++
+
+			if k := seen[key]; k > 1 {
+				key += " #" + sprintInt(k)
+			}
+
+			if guarded {
+				r.Discharge("R-C12-8", key, w.pos(in.Pos()), "also behind len(outputStack) == 0")
+			} else {
+				r.Violate("R-C12-8", key, w.pos(in.Pos()), "text that is written only when tracing is on goes to the current Context.output also while the program captures its output: the captured string differs between a traced and an untraced run")
+			}
+		})
+	}
+
+	if n == 0 {
+		r.Anchor("R-C12-8", "a write to Context.output behind a tracing test in package bytecode")
+	}
+}
